@@ -116,11 +116,18 @@ pub fn gen_csv(rng: &mut Rng) -> CsvSpec {
 	let mut rows = BTreeMap::new();
 	let mut ids: Vec<String> = (0..12).map(|i| format!("id{i}")).chain((0..12).map(|i| i.to_string())).collect();
 	rng.shuffle(&mut ids);
-	for id in ids.into_iter().take(rng.range(3, 16) as usize) {
+	let mut ids: Vec<String> = ids.into_iter().take(rng.range(3, 16) as usize).collect();
+	if rng.chance(0.3) {
+		// ids that differ from real ones only by surrounding blanks: other keys, matching nothing
+		let extra: Vec<String> = ids.iter().take(3).map(|i| format!(" {i}")).chain(ids.iter().skip(1).take(2).map(|i| format!("{i} "))).collect();
+		ids.extend(extra);
+	}
+	for id in ids {
 		let mut r = BTreeMap::new();
 		r.insert("id".to_string(), id.clone());
-		r.insert("kind".to_string(), (*rng.pick(&["primary", "secondary", "with space", "Größe"])).to_string());
-		r.insert("population".to_string(), rng.below(100000).to_string());
+		// cells keep their blanks: " padded " is not "padded", " 42" is a text and not a number
+		r.insert("kind".to_string(), (*rng.pick(&["primary", "secondary", "with space", "Größe", " padded ", "  indented", "trailing  "])).to_string());
+		r.insert("population".to_string(), if rng.chance(0.1) { format!(" {}", rng.below(1000)) } else { rng.below(100000).to_string() });
 		r.insert("ratio".to_string(), format!("{}.{}", rng.below(10), rng.range(1, 99)));
 		r.insert("flag".to_string(), (*rng.pick(&["true", "false"])).to_string());
 		r.insert("note".to_string(), format!("n{}", rng.below(9)));
